@@ -166,6 +166,8 @@ class _Run:
         self.collected_since_drop = True
         self.n_ops = 0
 
+    in_connect = False
+
     # ---- helpers -------------------------------------------------------------------------
     def violate(self, clause, sig, msg=""):
         self.res.violate(P, clause, sig, msg)
@@ -181,6 +183,8 @@ class _Run:
             if not self.weak_dead[i] and wr() is None:
                 self.weak_dead[i] = True
                 self.log.add("weak-dead", i)
+                if self.in_connect:
+                    self.res.probe("weak_died_inside_connect")
                 if self.stack:
                     self.res.probe("weak_died_inside_emit")
                 for e in self.entries:
@@ -267,6 +271,24 @@ class _Run:
             cid = len(self.entries)
             if op.get("token", True):
                 uargs = [f"c{cid}", *uargs]
+            during = [d for d in op.get("during", []) if d.get("op") in ("drop", "collect")]
+            if self.weaks:
+                during = [d for d in during if d["op"] != "drop" or (d["w"] % len(self.weaks)) not in weak]
+            else:
+                during = [d for d in during if d["op"] != "drop"]
+
+            def user_args_iter():
+                # the collector may run at any allocation inside connect(): model it by letting weak arguments of
+                # OTHER handlers die (or a collector pass happen) while connect is preparing its arguments
+                self.in_connect = True
+                try:
+                    for d in during:
+                        self.res.fault("gc_or_drop_inside_connect")
+                        self.do(d, inside=bool(self.stack))
+                finally:
+                    self.in_connect = False
+                yield from uargs
+
             with warnings.catch_warnings():
                 warnings.simplefilter("ignore")
                 try:
@@ -276,7 +298,7 @@ class _Run:
                         self.handlers[hid],
                         uarg,
                         weak_args=[self.weaks[w] for w in weak],
-                        user_args=uargs,
+                        user_args=user_args_iter() if during else uargs,
                     )
                 except Exception as e:  # noqa: BLE001
                     self.violate("C14.6", f"connect-raised:{core.exc_signature(e)}", repr(e))
@@ -542,6 +564,7 @@ class SignalsEngine(Engine):
         "weak_died_inside_emit",
         "falsy_weak_argument",
         "falsy_sender",
+        "weak_died_inside_connect",
         "disconnect_during_emit",
         "earlier_or_self_disconnect_with_later_present",
         "connect_during_emit",
@@ -582,6 +605,8 @@ class SignalsEngine(Engine):
                     op["uarg"] = rng.randint(1, 3)
                 if rng.random() < 0.15:
                     op["token"] = False
+                if n_w and rng.random() < 0.2:
+                    op["during"] = [{"op": "drop", "w": rng.randrange(n_w)}] if rng.random() < 0.75 else [{"op": "collect"}]
                 return op
             if r < 0.42:
                 return {"op": "disconnect_key", "c": rng.randrange(16)}
